@@ -1228,6 +1228,11 @@ func (e *Exec) instr(fr *Frame, ins ssa.Instruction) {
 		if n < 0 || c < n {
 			e.raisePanic("makeslice: len out of range")
 		}
+		if e.Cfg.AllocLimit > 0 && c > e.Cfg.AllocLimit && !e.tolerant {
+			// an allocation far larger than the (tiny) harness input: sized by a count the input claims
+			e.check("assert", "alloc:slice-capacity@"+fr.fn.Name(), smt.False)
+			panic(pathEnd{"alloc limit"})
+		}
 		if c > e.Cfg.MaxAlloc {
 			e.bound(fmt.Sprintf("allocation of %d elements exceeds MaxAlloc", c))
 			panic(pathEnd{"alloc bound"})
